@@ -363,7 +363,7 @@ func (r *Run) opMpuListParts(op *Op) {
 		r.fail("mpu.list", "ListParts of a pending upload fails", "200", resp.String()+" "+resp.Msg)
 	}
 	all := u.PartNumbers()
-	if !op.HasMk && op.Max == 0 {
+	if !op.HasMk && op.Max == 0 && len(all) < protocolPage { // (an absent max-parts means the protocol's page of 1000)
 		r.checkParts("mpu.list", u, x.Parts, all)
 		if x.IsTruncated {
 			r.fail("mpu.list", "an unpaginated ListParts reports IsTruncated=true", "false", "true")
@@ -382,8 +382,8 @@ func (r *Run) opMpuListParts(op *Op) {
 		}
 	}
 	clip := func(l []int) []int {
-		if op.Max > 0 && len(l) > op.Max {
-			return l[:op.Max]
+		if len(l) > pageSize(op) {
+			return l[:pageSize(op)]
 		}
 		return l
 	}
@@ -426,8 +426,8 @@ func (r *Run) opMpuWalkParts(op *Op) {
 		if x == nil {
 			r.fail("mpu.walk", "a ListParts page request made with the marker the server returned fails", "200", resp.String()+" "+resp.Msg)
 		}
-		if op.Max > 0 && len(x.Parts) > op.Max {
-			r.fail("mpu.walk", "a ListParts page holds more parts than max-parts", fmt.Sprintf("<= %d", op.Max), fmt.Sprint(len(x.Parts)))
+		if len(x.Parts) > pageSize(op) {
+			r.fail("mpu.walk", "a ListParts page holds more parts than max-parts", fmt.Sprintf("<= %d", pageSize(op)), fmt.Sprint(len(x.Parts)))
 		}
 		got = append(got, x.Parts...)
 		if !x.IsTruncated {
@@ -517,13 +517,14 @@ func (r *Run) opMpuListUploads(op *Op) {
 	if x == nil {
 		r.fail("mpu.list", "ListMultipartUploads fails", "200", resp.String()+" "+resp.Msg)
 	}
-	if op.Max > 0 {
-		if len(x.Uploads) > op.Max {
-			r.fail("mpu.walk", "a ListMultipartUploads page holds more uploads than max-uploads", fmt.Sprintf("<= %d", op.Max), fmt.Sprint(len(x.Uploads)))
+	want, wantP := r.expectedUploads(op.B, op.Prefix, op.Delim)
+	if op.Max > 0 || len(want)+len(wantP) >= protocolPage {
+		// one page (an absent max-uploads means the protocol's page of 1000)
+		if len(x.Uploads) > pageSize(op) {
+			r.fail("mpu.walk", "a ListMultipartUploads page holds more uploads than max-uploads", fmt.Sprintf("<= %d", pageSize(op)), fmt.Sprint(len(x.Uploads)))
 		}
 		return
 	}
-	want, wantP := r.expectedUploads(op.B, op.Prefix, op.Delim)
 	var got, gotP []string
 	for _, u := range x.Uploads {
 		got = append(got, u.Key+"|"+u.UploadID)
@@ -562,8 +563,8 @@ func (r *Run) opMpuWalkUploads(op *Op) {
 		if x == nil {
 			r.fail("mpu.walk", "a ListMultipartUploads page request made with the markers the server returned fails", "200", resp.String()+" "+resp.Msg)
 		}
-		if op.Max > 0 && len(x.Uploads) > op.Max {
-			r.fail("mpu.walk", "a ListMultipartUploads page holds more uploads than max-uploads", fmt.Sprintf("<= %d", op.Max), fmt.Sprint(len(x.Uploads)))
+		if len(x.Uploads) > pageSize(op) {
+			r.fail("mpu.walk", "a ListMultipartUploads page holds more uploads than max-uploads", fmt.Sprintf("<= %d", pageSize(op)), fmt.Sprint(len(x.Uploads)))
 		}
 		for _, u := range x.Uploads {
 			got = append(got, u.Key+"|"+u.UploadID)
